@@ -22,9 +22,18 @@ BUILT = {
  "C10": ("engine-a", "exploration", "stateful property testing, free-list snapshot invariants + policy predicate on the serving node",
          "After every step the raw free-list snapshot is checked for well-formedness and ordering; every allocation that fresh space cannot satisfy is checked against the Optimistic/Pessimistic/None policy and the remainder rule.",
          "snapshot accessor is a raw bounded walk added under the verif feature", "5/C10"),
+ "C11": ("engine-a", "exploration", "differential testing: one generated history on sync::Arena and unsync::Arena, per-step observation tuples compared",
+         "The same generated config and single-threaded history (whole trait surface incl. rewind/clear/set_minimum_segment_size/increase_discarded/discard_freelist) is run on both flavours; result kinds, ranges, counters and free-list snapshots must agree after every step; one-sided panics or oracle failures are violations.",
+         "memory() bytes are not compared (not in the statement; see DESIGN.md section 9)", "5/C11"),
  "C13": ("engine-a", "exploration", "stateful property testing, release-exactly-once predicates, drop counters, refs() model, unmount event counter",
          "Clone/alloc/to-owned/detach/drop in any order incl. original first, with a generated teardown order; per-drop state delta must equal exactly one dealloc of the buffer extent; Unmount event exactly once at the last holder.",
          "Unmount event at the top of Memory::unmount stands for the release of the backing store", "5/C13"),
+ "C16": ("engine-a", "exploration", "property testing of constructors against Options::data_offset*, accessor table, and 3-way differential (Vec/anon/file, unified layout) with memory() hashes per step",
+         "Constructor cases around the prefix size for reserved 0..=4096 on all backends and both flavours, accessor table and first-allocation offset; then one history in lock-step on Vec, anonymous-mmap and file arenas with byte-identical memory() after every step.",
+         "Options::data_offset / data_offset_unify are the reference, as the statement says", "5/C16"),
+ "C17": ("engine-a", "exploration", "stateful property testing with an i128 reference clamp for rewind; metamorphic relation cleared arena == fresh arena under the same continuation; checked and unchecked builds",
+         "Boundary-dense ArenaPosition values in every reachable state against an i128 reference; clear followed by a generated continuation also run on a fresh arena, observation streams compared.",
+         "rewind/clear contracts respected by the harness (handles above the new cursor forgotten, free list reaching above it discarded first)", "5/C17"),
  "C18": ("engine-a", "exploration", "stateful property testing on unsync::Arena with truncate steps, before/after state relation",
          "truncate(n) for n around allocated/capacity and up to 4x capacity on the three backends after histories with free list and detached live data; capacity law, unchanged state and bytes, later fitting allocations must succeed.",
          "truncate only while refs()==1 and no handle object exists", "5/C18"),
